@@ -37,7 +37,7 @@ SHARDS = {"quick": 16, "thorough": 16}
 TIMEOUT = {"quick": 900, "thorough": 3600}
 MIN_CASES = {"quick": 3000, "thorough": 3000}
 REQUIRED_COUNTERS = ["cells_judged", "mapped_class_raised", "wrong_state_rejected", "ip_pairings_cells", "ble_pairings_cells"]
-BLE_BUILT = False
+BLE_BUILT = True
 if not BLE_BUILT:
     REQUIRED_COUNTERS = [c for c in REQUIRED_COUNTERS if not c.startswith("ble_")]
 
